@@ -201,6 +201,39 @@ DESC = {
     "C20-r6m1": "_merge walks the default's keys; user-only keys re-added only at the top level",
     "C20-r6m2": "arrays extend the defaults instead of replacing them",
     "C20-r6m3": "changed = changed or _merge(...): later overlapping tables not merged",
+    "C01-r7m1": "memory delete walks reversed(events) and pops at -offset (off by one)",
+    "C01-r7m2": "sqlite insert_many serialises payloads over all events, zips them with the id-less subset",
+    "C01-r7m3": "peewee insert_many: datastr of the previous event re-used for an event with empty data",
+    "C02-r7m1": "peewee insert_many picks plain inserts with `event not in events_updates` (Event.__eq__ ignores ids)",
+    "C02-r7m2": "sqlite delete raises ValueError when no row matched",
+    "C02-r7m3": "memory delete never looks at list position 0",
+    "C03-r7m1": "peewee stored endtime column, not maintained by replace/replace_last",
+    "C03-r7m2": "peewee trims through filter_period_intersect (assumes events do not overlap)",
+    "C03-r7m3": "sqlite paged read (100 rows per statement) with a wrong continuation condition",
+    "C04-r7m1": "sqlite bulk upsert as INSERT ... ON CONFLICT(id) DO UPDATE (table-wide conflict target)",
+    "C04-r7m2": "Datastore resolves a missing bucket id to the bucket whose display name equals it",
+    "C04-r7m3": "peewee delete_bucket also sweeps events of buckets unknown to this handle's key map",
+    "C05-r7m1": "sqlite update_bucket: SET columns from a set comprehension, values in declaration order",
+    "C05-r7m2": "sqlite delete_bucket issues BEGIN IMMEDIATE (fails while the lazy transaction is open)",
+    "C05-r7m3": "Datastore.update_bucket log line runs str.format over the bucket id (ids with braces)",
+    "C06-r7m1": "sqlite VACUUM after delete_bucket leaves the connection in autocommit",
+    "C06-r7m2": "sqlite enable_lazy_commit = enable_lazy_commit or testing",
+    "C06-r7m3": "sqlite delete_bucket deletes events in batches of 2000 with a commit per batch",
+    "C07-r7m1": "heartbeat_reduce groups the stream by json.dumps(data) (equal data, different text)",
+    "C07-r7m2": "memory max_events=8192: oldest events dropped on overflow",
+    "C07-r7m3": "memory update_bucket implemented through create_bucket (bucket emptied)",
+    "C12-r7m1": "query_bucket limit argument with a default of 10000",
+    "C12-r7m2": "shared _query_period() returns the end instant minus 1 ms",
+    "C12-r7m3": "fast path: empty result when the window starts after the newest event's timestamp",
+    "C14-r7m1": "'already migrated' marker file shared by both profiles",
+    "C14-r7m2": "migration split into two loops, the second reads events with a stale loop variable",
+    "C14-r7m3": "peewee buckets() selects an explicit column list without datastr",
+    "C18-r7m1": "commit age taken from the event's own end time",
+    "C18-r7m2": "age limit stretched to 20x the duration of a slow commit",
+    "C18-r7m3": "clock sampled only on every 4th conditional_commit call",
+    "C20-r7m1": "first-run template written through save_config_toml (assert on an empty parsed document)",
+    "C20-r7m2": "_merge skips overrides that compare equal (True == 1 again)",
+    "C20-r7m3": "defaults passed through textwrap.dedent before parsing",
 }
 
 
@@ -221,7 +254,7 @@ def main():
         m["breaks_property"] = own
         m["change"] = DESC.get(name, "")
         m["needs_to_manifest"] = " ".join(needs)[:900] if needs else notes[:600]
-        m["author"] = "independent sub-agent, round %d; saw only the property text and a private worktree" % (6 if "-r6" in name else 5 if "-r5" in name else 4 if "-r4" in name else 3 if "-r3" in name else 2 if "-r2" in name else 1)
+        m["author"] = "independent sub-agent, round %d; saw only the property text and a private worktree" % (7 if "-r7" in name else 6 if "-r6" in name else 5 if "-r5" in name else 4 if "-r4" in name else 3 if "-r3" in name else 2 if "-r2" in name else 1)
         json.dump(m, open(mp, "w"), indent=1)
         det = []
         first = ""
@@ -236,7 +269,7 @@ def main():
         rows.append((name, own, DESC.get(name, ""), "yes (%s)" % first if own in det else "**no**", ", ".join(c for c in det if c != own) or "—", ", ".join(harness) or ""))
     out = ["## Appendix F — seeded changes and the checks that catch them", "",
            "Generated by `tools/appendix_f.py` from `seeded/*/meta.json` (each change applied to a scratch worktree,",
-           "`VERIF_REPO=<worktree> check.py <ID> --tier quick`). `-m*` = first round, `-r2m*` … `-r6m*` = second … sixth round (agents were",
+           "`VERIF_REPO=<worktree> check.py <ID> --tier quick`). `-m*` = first round, `-r2m*` … `-r7m*` = second … seventh round (agents were",
            "told which ideas had been used and asked for other mechanisms). \"own check\" = the check of the property the change was written against.", "",
            "| id | change | own check (first oracle) | also caught by |", "|----|--------|--------------------------|----------------|"]
     for name, own, desc, owns, others, harness in rows:
